@@ -2,13 +2,13 @@
 from vx.unit import Unit
 from vx.extract import C
 
-PROPS = ['C06', 'C01']
+PROPS = ['C06', 'C09', 'C01']
 HEADER = 'use vstd::prelude::*;\nuse vstd::std_specs::convert::*;\nverus! {\n'
 FOOTER = '\n} // verus!\nfn main() {}\n'
 
 
 def build(repo, findings):
-    u = Unit('U29', 'assigning default: the subscript of an associative array (set or only declared) is a string key', repo, ['C06'], safety_props=['C01', 'C06'])
+    u = Unit('U29', 'assigning default: the subscript of an associative array (set or only declared) is a string key', repo, ['C06', 'C09'], safety_props=['C01', 'C06'])
     ex = u.source('brush-core/src/expansion.rs')
     va = u.source('brush-core/src/variables.rs')
     wd = u.source('brush-parser/src/word.rs')
@@ -26,11 +26,12 @@ def build(repo, findings):
     f.replace('async fn assign_to_parameter<T: Into<String>>(', 'fn assign_to_parameter(', 'R10', 'generic T: Into<String> instantiated at String') if 'async fn assign_to_parameter<T: Into<String>>(' in f.text else f.replace('fn assign_to_parameter<T: Into<String>>(', 'fn assign_to_parameter(', 'R10', 'generic T: Into<String> instantiated at String')
     f.replace('value: T,', 'value: String,', 'R10', 'generic T: Into<String> instantiated at String')
     f.resub(r'let value = value\.into\(\);\n', '', 'R10', '`value.into()` is the identity at String', count=None)
-    f.resub(r'self\.shell\.env\(\)\.get\(name\)', 'env_get(&*self.shell, name)', 'R14', 'environment lookup -> stub', count=None)
+    f.resub(r'self\s*\.shell\s*\.env\(\)\s*\.get\(name\)', 'env_get(&*self.shell, name)', 'R14', 'environment lookup -> stub', count=None)
+    f.resub(r'env_get\(&\*self\.shell, name\)\s*\.is_some_and\(\|(\([^|]*\))\| ([^;]*)\);', r'match env_get(&*self.shell, name) { Some(\1) => \2, None => false };', 'R14', 'Option::is_some_and(|pat| e) -> match { Some(pat) => e, None => false } (std)', count=None)
     f.resub(r'self\.shell\.env_mut\(\)\.update_or_add_array_element\(\s*variable_name,\s*index,\s*value,.*?\)\n', 'env_update_or_add_array_element(&mut *self.shell, variable_name, index, value)\n', 'R14', 'environment write -> stub', flags=16)
     f.resub(r'self\.shell\.env_mut\(\)\.update_or_add\(\s*variable_name,\s*variables::ShellValueLiteral::Scalar\(value\),.*?\)\n', 'env_update_or_add_scalar(&mut *self.shell, variable_name, value)\n', 'R14', 'environment write -> stub', flags=16)
     f.sig(fn, ret='res', ensures=[
-        C('C06 subscript-kind-follows-the-declared-kind-of-the-variable', '''match *parameter {
+        C('C06,C09 subscript-kind-follows-the-declared-kind-of-the-variable', '''match *parameter {
     brush_parser::word::Parameter::NamedWithIndex { name, index } => final(self).evals@ == old(self).evals@.push(IndexEval { index: index@,
         as_string_key: match lookup_spec(*old(self).shell, name@) { Some(v) => is_associative(v.val), None => false } }),
     _ => final(self).evals@ == old(self).evals@,
